@@ -495,3 +495,18 @@ func enclosingStmt(body *ast.BlockStmt, n ast.Node) ast.Stmt {
 	})
 	return best
 }
+
+// usesIdent: does the node mention the object?
+func usesIdent(p *packages.Package, n ast.Node, obj types.Object) bool {
+	found := false
+	if n == nil || obj == nil {
+		return false
+	}
+	ast.Inspect(n, func(m ast.Node) bool {
+		if id, ok := m.(*ast.Ident); ok && (p.TypesInfo.Uses[id] == obj || p.TypesInfo.Defs[id] == obj) {
+			found = true
+		}
+		return true
+	})
+	return found
+}
